@@ -230,6 +230,7 @@ def run(ctx, col, tier):
                                     f"{acc_name}[{child}] = {acc_name}[{parent}] + dis[{child}, {parent}]"))
     acc_st = [n for n in own_nodes(d) if isinstance(n, ast.Assign) and len(n.targets) == 1 and norm_src(n.targets[0]) == f"{acc_name}[{child}]"]
     decided = False
+    acc_by_value = None
     if len(acc_st) == 1 and not acc_ok:
         # decide by value: the stored expression, read element-wise through the local definitions, against  acc[parent] + dis[parent, child]
         try:
@@ -238,6 +239,7 @@ def run(ctx, col, tier):
             want = ev.R.sym(f"{acc_name}[{parent}]") + ev._sym_matrix("dis", parent, child)
             decided = True
             same = got.same(want)
+            acc_by_value = same
             col.check(same, R, q, d.loc(acc_st[0]), "the new point's path length is the parent's plus the edge length (element-wise value of the stored expression)",
                       f"{norm_src(acc_st[0])} == {want}", f"`{norm_src(acc_st[0])}` stores {got}, not {want}: the path length of the new point is not the parent's "
                       f"path length plus the edge, so the balancing term of every later attachment below it is computed from a wrong length", stmt="acc", definite=True)
@@ -367,7 +369,7 @@ def run(ctx, col, tier):
         ("the arg-min pair (parent, child) of the cost matrix", ["(i, j) = np.unravel_index(cost.argmin(), cost.shape)"], "argmin"),
         ("the parent's child count grows", ["furcations[i] += 1"], "count"),
         ("the new point records the parent", ["pid[j] = i"], "pid"),
-        ("its path length is the parent's plus the edge", ["acc[j] = acc[i] + dis[i, j]"], "acc"),
+        *([] if acc_by_value is not None else [("its path length is the parent's plus the edge", ["acc[j] = acc[i] + dis[i, j]"], "acc")]),  # decided by value above when written otherwise
         ("it becomes connected", ["conn[j] = True"], "conn"),
         ("it can now act as parent of the unconnected points", ["mask[j, :] = conn"], "mask-row"),
         ("it can no longer be attached as a child", ["mask[:, j] = True"], "mask-col"),
